@@ -22,7 +22,7 @@ RULE = ('Engine "probe": DAGs (1-7 nodes) of probing tasks - default filter_cont
         'self.context. Oracle: value == reference evaluator with the reference-filtered context (context clause, every backend); '
         'serial: pid and thread == the caller\'s; fork: pid != caller, all task pids pairwise distinct, parent pid == caller, '
         'mutated global and list VISIBLE; spawn: same pid rules, mutated global and list NOT visible (fresh interpreter). Engine '
-        '"ctx-independence" (metamorphic): the same tasks run under two different contexts into two stores must produce identical '
+        '"ctx-independence" (metamorphic): the same tasks (some of whose results embed the running task object itself) run under two different contexts into two stores must produce identical '
         'key sets, identical result files byte for byte and identical metadata.json modulo the two timing fields. Non-trivial = '
         '>= 2 nodes with different filter parameters and backend != serial (probe), >= 2 tasks (ctx). Distinct = hash of spec.')
 ASSUMPTIONS = ['a parent-mutated module global observed inside run() distinguishes inherited memory (fork) from a fresh interpreter (spawn)']
@@ -147,9 +147,16 @@ def probe_spec(backend: str):
     return st.builds(fix, base, st.dictionaries(st.sampled_from(['a', 'b', 'c', 'zz', 'other']), CTX_VALUES, max_size=4), st.booleans())
 
 
+def _with_self_embedding(nodes, flags):
+    out = []
+    for n, f in zip(nodes, flags + [False] * len(nodes)):
+        out.append({**n, 'type': 'RS'} if (f and n['type'] == 'RV') else n)
+    return out
+
+
 def ctx_spec(backends):
     return st.builds(lambda nodes, c1, c2, b: {'nodes': nodes, 'contexts': [c1, c2], 'backend': b},
-                     resultcase.node_sets(max_big=70_000), st.dictionaries(st.sampled_from(['a', 'b', 'c']), CTX_VALUES, max_size=3),
+                     st.builds(_with_self_embedding, resultcase.node_sets(max_big=70_000), st.lists(st.booleans(), min_size=1, max_size=5)), st.dictionaries(st.sampled_from(['a', 'b', 'c']), CTX_VALUES, max_size=3),
                      st.dictionaries(st.sampled_from(['a', 'b', 'c', 'd']), CTX_VALUES, min_size=1, max_size=3), st.sampled_from(backends))
 
 
